@@ -47,6 +47,15 @@ Theorem C18_outer_exact : forall (ty : N -> N) (allowed : N -> bool) t, wf t -> 
 Proof. exact outer_exact. Qed.
 Print Assumptions C18_outer_exact.
 
+(* ... and for ANY node the library is asked about (a decorator, a class base, an assignment target, a with-item, an except handler: nodes
+   that have entries of their own in the parent-statement table, pointing at their own statement): the query starts from the node's
+   containing statement, which is a statement of the tree that contains the node, and answers as the lexical walk from that statement does *)
+Theorem C18_outer_any_node : forall (ty : N -> N) (allowed : N -> bool) t, wf t -> NoDup (ids t) ->
+  forall k s, cs_lookup (visit None t) k None = Some s -> forall fuel,
+  contains t s k /\ only_allowed_node ty allowed t k fuel = only_allowed_lex ty allowed t s fuel.
+Proof. exact outer_node_exact. Qed.
+Print Assumptions C18_outer_any_node.
+
 (* histories of instrumentations (exec, decorator, import; the same path again; other paths): model/BookHist.v.  gen/BookOrder.v
    is REGENERATED from AstRewriter.visit on every run and says in which order the old bookkeeper of a path is removed and the new
    one added.  For every history whose new nodes are live objects not yet in the tables (`hist_fresh`), and for every bookkeeper
